@@ -268,6 +268,16 @@ fn drive<B: Fld, E: ExtEl<B, N>, const N: usize>(run: &Run, scale: u64) {
     }
     let bnd = boundary_elements::<B>();
     let x = E::ref_ext();
+    if std::env::var("VERIF_STAGE").as_deref() == Ok("miri") {
+        run.par(&format!("{nm}-miri"), 40, |i, rng, st| {
+            let a = operand::<B, E, N>(rng, &bnd);
+            let b = operand::<B, E, N>(rng, &bnd);
+            bin_check::<B, E, N>(st, a, b, None);
+            slices::<B, E, N>(st, rng, &bnd);
+            st.case(wfv::fnv(format!("{nm}miri{i}").as_bytes()), true);
+        });
+        return;
+    }
     // (1) boundary value in every position of a and of b (others random), all pairs of positions
     let nb = bnd.len();
     let stride = if run.quick() { 5 } else { 1 };
